@@ -135,6 +135,21 @@ def ptree(text):
     return norm_seq(sp.parse(text, FLAGS))
 
 
+def quant_tree(n, m, greedy, body):
+    """normalised tree the documentation gives for the quantifier {n,m} (m None = unbounded) on a non-empty repeatable body"""
+    if m is not None and m == 0:
+        return []
+    if n == 1 and m is not None and m == 1:
+        return list(body)
+    mx = sp.MAXREPEAT if m is None else m
+    lazy = (not greedy) and not (m is not None and n == m)
+    return [("MIN_REPEAT" if lazy else "MAX_REPEAT", n, mx, list(body))]
+
+
+def bad_bounds(n, m):
+    return (n < 0) or (m is not None and (m < 0 or m < n))
+
+
 def check_lookbehind_widths(sub):
     """re.compile's extra verdict on a parsed pattern: look-behinds must have a fixed width"""
     for op, av in sub:
